@@ -12,3 +12,10 @@ claim("C07", "DESIGN.md 5/C07",
       "severity bytes x all 65536 action-flag words x all 64 switch combinations x every list of up to 3 severity "
       "groups (thorough: plus the option->Config mapping of main()) and compared with a branch-free statement of the "
       "documented rules; every harness must end 'Confirmed over all paths'.")
+
+claim("C02", "DESIGN.md 5/C02",
+      "generatePH / generateUH / sectionFun and the five header-type section decoders are executed on a section in which "
+      "one field at a time (all values of its 1..8 bytes) is symbolic; the displayed value is compared with an oracle "
+      "(numeric, BCD text, NUL-stripped text, frozen published tables, exact flag set, every target id) and every other "
+      "displayed value with the decode of the unmodified template (non-interference). 84 field cases, each "
+      "'Confirmed over all paths'.")
